@@ -169,7 +169,7 @@ def corpus(tier, rng, assigned_only=True):
     """leaves of every kind x boundary value, indefinite strings, and nested containers up to depth 4 (5 in thorough)"""
     L0 = leaves(assigned_only) + strings_indef(rng)
     small = [t for t in L0 if len(enc(t)) <= 12]
-    k = 600 if tier == 'thorough' else 120
+    k = 3000 if tier == 'thorough' else 120
     L1 = wrap(small, rng, k)
     # one of each container around each kind of leaf
     for t in small[::7]:
